@@ -51,6 +51,15 @@ CHECKS = {
         design_ref="3 C08",
         technique="symbolic execution of the real Python functions with CrossHair (z3) at unit level (lexer/generator routines) and API level; replay on the real stack",
     ),
+    "C16": dict(
+        category="other",
+        text="Bounded symbolic execution (CrossHair/z3): symbolic literal and quoted-identifier text (unicode, length-bounded) through the "
+        "real re-rendering step of execute_string and the real Snowflake lexer routines; the real execute_string / execute with "
+        "symbolic choices of statements, separators, comments, cursor class and nop patterns against a stub engine, compared with "
+        "one-by-one execution on an identical session.",
+        design_ref="3 C16",
+        technique="symbolic execution of the real Python functions with CrossHair (z3); differential harness (execute_string vs one-by-one); replay on the real stack",
+    ),
 }
 
 NOT_YET = "not claimed yet: check not built in this round (see DESIGN.md 7 for the order of work)"
